@@ -68,9 +68,11 @@ Record state := State {
 
 (* ---------- faults ---------- *)
 Inductive fkind := FBefore | FAfter.
-(* sv: the idx-th SaveReplicationStatus of this operation fails; rep: ReplicateFileToAllMembers fails (ignored by the code) *)
-Record fault := Fault { f_save : option (nat * fkind); f_rep : bool }.
-Definition no_fault : fault := Fault None false.
+(* f_save: the SaveReplicationStatus of the idx-th switch attempt of this operation fails; f_rep: ReplicateFileToAllMembers
+   fails (ignored by the code); f_alloc: the AllocID of the idx-th switch attempt fails (nothing else happens then) *)
+Record fault := Fault { f_save : option (nat * fkind); f_rep : bool; f_alloc : option nat }.
+Definition no_fault : fault := Fault None false None.
+Definition alloc_fails (f : fault) (idx : nat) : bool := match f_alloc f with Some i => Nat.eqb i idx | None => false end.
 Definition wr (f : fault) (idx : nat) : bool * bool :=
   match f_save f with
   | Some (i, k) => if Nat.eqb i idx then match k with FBefore => (false, false) | FAfter => (true, false) end else (true, true)
@@ -96,6 +98,7 @@ Definition set_status (s : state) (sv st : option status) (fl : list status) (ni
 
 (* returns the new state, whether it was published, and the number of saves consumed *)
 Definition switch (s : state) (target : dstate) (f : fault) (idx : nat) : state * bool :=
+  if alloc_fails f idx then (s, false) else       (* AllocID failed: the switch returns before anything else *)
   let id := next_id s in
   let st := Status target id in
   let '(applied, ok) := wr f idx in
@@ -349,7 +352,10 @@ Definition mon_step (m : mon) (o : op) (prev cur : obs) : mon * list string :=
        else if chain_from (S (length acc)) acc "" then [] else ["C19:sync-declared-without-full-scan"]
      else []) ++
     (* 4 every published status carries an id never seen before *)
-    (if changed then match cs with Some x => if memZ' (st_id x) (m_ids m) then ["C19:state-id-reused"] else [] | None => [] end else []) ++
+    (if changed then match cs with
+                     | Some x => if memZ' (st_id x) (m_ids m) then ["C19:state-id-reused"]
+                                 else if existsb (fun i => st_id x <=? i) (m_ids m) then ["C19:state-id-not-increasing"] else []
+                     | None => [] end else []) ++
     (* 5 persisted and offered before served: a published status is in storage and was handed to the replicater *)
     (if changed then
        match cs with
